@@ -973,7 +973,7 @@ def gen_cases(rng, tier):
             if tier == "thorough":
                 pool = [t for _, t in corpus] + [t for _, t in rng.sample(muts, 120)]
             else:
-                pool = list(CORE) + [t for _, t in rng.sample(corpus, 10)] + [t for _, t in rng.sample(muts, 6)]
+                pool = list(CORE) + [t for _, t in rng.sample(corpus, 6)] + [t for _, t in rng.sample(muts, 4)]
             pool += list(dict.fromkeys(LITERAL_TEXTS.values()))
             for t in dict.fromkeys(pool):
                 cases.append({"mode": mode, "turns": TURNS[mode], "subst": {str(k): t}})
